@@ -82,7 +82,8 @@ func firstCharOfInitialism(s string, i int) bool {
 	r2, _ := utf8.DecodeLastRuneInString(s[:i])
 
 	// need the equal to for when the rune is the last char in the string (ex: EnvVarA)
-	return len(s) >= i+rl1 && i >= 1 && unicode.IsUpper(r1) && unicode.IsLower(r2)
+	// a digit ends a word the same way a lower-case letter does (e.g., port2*I*D)
+	return len(s) >= i+rl1 && i >= 1 && unicode.IsUpper(r1) && (unicode.IsLower(r2) || unicode.IsDigit(r2))
 }
 
 // firstCharAfterInitialism, as used in DecodeGoCamelCase, attempts to
@@ -143,8 +144,13 @@ func decodeGoCamelCase(s string, isWordBoundary func(rune) bool) (DecodedIdentif
 		}
 	}
 
-	if last := strings.ToLower(s[lastBoundary:]); len(last) > 0 {
-		words = append(words, strings.ToLower(s[lastBoundary:]))
+	if last := s[lastBoundary:]; len(last) > 0 {
+		if last == strings.ToUpper(last) {
+			// initialisms that end in a digit (e.g., RAMUTF8)
+			words = append(words, extractInitialisms(last)...)
+		} else {
+			words = append(words, strings.ToLower(last))
+		}
 	}
 
 	return words, nil
